@@ -77,10 +77,10 @@ def resStr : Res → String
   | .aborted => "aborted"
 
 def entryStr : Entry → String
-  | .exit q => "exit." ++ q
+  | .exit q _ => "exit." ++ q
   | .onExit q => "onexit." ++ q
   | .cancel id => s!"cancel.{id}"
-  | .enter q => "enter." ++ q
+  | .enter q _ => "enter." ++ q
   | .arm h => s!"arm.{h.id}.{h.when}.{tevStr h.ev}"
   | .out v => "out." ++ v.render
   | .onEnter q => "onenter." ++ q
